@@ -48,8 +48,28 @@ def run(prog: Program, res: Result, tier: str) -> None:
         raise AnalysisError("Filterbank.fold: expected one kernels.fold call in the loop")
     call, _ = kcs[0]
     op.check_roles(res, "R5", lp, call, k, {"inarray": "data", "nsamps": "count", "nchans": "nchans", "total_nsamps": "nsamples_total"})
-    op.check_roles(res, "R3", lp, call, k, {"index": "index", "maxdelay": "maxdelay"})
+    op.check_roles(res, "R3", lp, call, k, {"maxdelay": "maxdelay"})
     b = prog.bind_args(call, k)
+    # the index the phase is computed from: block * (gulp - skipback), advanced by the lead when the delays handed to the kernel
+    # are counted from the earliest channel (delays - min(0, min delay)): the same lead, or the phases of all samples are shifted
+    _g, _S, stride = op.stride(lp)
+    gname = op.gulp_name(lp)
+    stop_i = ({gname} if gname else set()) | {lp.index}
+    p_idx = op.poly(b["index"], call, stop=stop_i)
+    w_idx = Poly.sym(lp.index) * stride
+    lead_i = w_idx - p_idx
+    p_del = op.poly(b["delays"], call) if b.get("delays") is not None else None
+    lead_d = (Poly.sym("self.header.get_dmdelays(dm)") - p_del) if p_del is not None else None
+    key = "Filterbank.fold:fold:index"
+    lead_txt = lead_i.canon()
+    lead_ok = lead_i.is_zero() or (lead_txt.startswith("min(0, ") and ".min()" in lead_txt)
+    if lead_d is not None and lead_i == lead_d and lead_ok:
+        res.ok("R3", fn, call, "fold(index=...) receives block index * (gulp - skipback)" + ("" if lead_i.is_zero() else
+               f" advanced by the same lead ({lead_txt}) that the delays are counted from"), construct=f"index={norm(b['index'])}", key=key)
+    else:
+        res.bad("R3", fn, call, f"fold parameter 'index' receives `{norm(b['index'])}`, expected block index * (gulp - skipback) = {w_idx.canon()}"
+                f" minus the lead the delays are counted from ({(lead_d.canon() if lead_d is not None else '?')})",
+                construct=f"index={norm(b['index'])}", key=key)
     for p, want in (("tsamp", "self.header.tsamp"), ("period", "period"), ("accel", "accel"), ("nbins", "nbins"), ("nints", "nints"), ("nsubs", "nbands")):
         key = f"Filterbank.fold:fold:{p}"
         got = norm(b.get(p, ast.Constant(None)))
@@ -61,8 +81,11 @@ def run(prog: Program, res: Result, tier: str) -> None:
     sb = lp.kw("skipback")
     okd = any(x.startswith("call:") and x.endswith("get_dmdelays") for x in deps)
     # skipback is the max of those same delays
-    oksb = sb is not None and isinstance(dl, ast.Name) and norm(op.flow.expand(sb, op.cfg.node_for(lp.call))) == \
-        f"int({norm(op.flow.expand(dl, op.cfg.node_for(call)))}.max())"
+    from ..normalform import canon as _canon11
+    sbx = op.flow.expand(sb, op.cfg.node_for(lp.call)) if sb is not None else None
+    oksb = isinstance(sbx, ast.Call) and dotted(sbx.func) == "int" and len(sbx.args) == 1 and isinstance(sbx.args[0], ast.Call) \
+        and isinstance(sbx.args[0].func, ast.Attribute) and sbx.args[0].func.attr == "max" and not sbx.args[0].args and dl is not None \
+        and _canon11(sbx.args[0].func.value) == _canon11(op.flow.expand(dl, op.cfg.node_for(call)))
     if okd and oksb:
         res.ok("R3", fn, call, "delays come from header.get_dmdelays(dm) and the plan's skipback is their maximum", key=key)
     else:
@@ -95,6 +118,9 @@ def run(prog: Program, res: Result, tier: str) -> None:
         else:
             res.bad("R4", tf, call, f"fold accumulates into '{norm(a)}' with +=, but it is not created by np.zeros", key=key)
     _layout(prog, res, tf, flow, call, k, b, None)
+    # ---- R3 (cont.) no negative delay reaches the folding kernel (shared with C09.R3; F38) ---------------------------------
+    from ..lints import check_delay_sign
+    check_delay_sign(prog, res, "R3", only={"fold"})
     # ---- R6 the plan the folding loop consumes (shared with C01) ------------------------------------------------------
     depends(res, "R6", prog, tier, "C01", why="the blocks these loops consume come from read_plan: the plan rules of C01 (and, through them, the multi-file stream rules of C02) are re-evaluated here")
     res.floor("R6", 40)
@@ -161,14 +187,18 @@ B = "sigpyproc/base.py"
 K = "sigpyproc/core/kernels.py"
 T = "sigpyproc/timeseries.py"
 MUTANTS = [
+    {"id": "c11-revert-F38", "file": "sigpyproc/base.py", "expect": "C11.R3",
+     "old": "        chan_delays = self.header.get_dmdelays(dm)\n        # Channels that lead the reference (ascending band, negative DM) have\n        # negative delays: count them from the earliest channel instead\n        min_delay = min(0, int(chan_delays.min()))\n        chan_delays = chan_delays - min_delay\n        max_delay = int(chan_delays.max())\n        gulp = max(2 * max_delay, gulp)\n        fold_ar = np.zeros(", "new": "        chan_delays = self.header.get_dmdelays(dm)\n        min_delay = 0\n        max_delay = int(chan_delays.max())\n        gulp = max(2 * max_delay, gulp)\n        fold_ar = np.zeros("},
+    {"id": "c11-index-without-lead", "file": "sigpyproc/base.py", "expect": "C11.R3",
+     "old": "                ii * (gulp - max_delay) - min_delay,\n", "new": "                ii * (gulp - max_delay),\n"},
     {"id": "c11-index-gulp", "file": B, "expect": "C11.R3",
-     "old": "                nbands,\n                ii * (gulp - max_delay),\n            )", "new": "                nbands,\n                ii * gulp,\n            )"},
+     "old": "                nbands,\n                ii * (gulp - max_delay) - min_delay,\n            )", "new": "                nbands,\n                ii * gulp - min_delay,\n            )"},
     {"id": "c11-count-other-index", "file": K, "expect": "C11.R1",
      "old": "            fold_ar[pos2] += val\n            count_ar[pos2] += 1", "new": "            fold_ar[pos2] += val\n            count_ar[int(pos1)] += 1"},
     {"id": "c11-reshape-swapped", "file": B, "expect": "C11.R2",
      "old": "        fold_ar = fold_ar.reshape(nints, nbands, nbins)", "new": "        fold_ar = fold_ar.reshape(nbands, nints, nbins)"},
     {"id": "c11-divide-in-loop", "file": B, "expect": "C11.R4",
-     "old": "                ii * (gulp - max_delay),\n            )\n        fold_ar /= count_ar", "new": "                ii * (gulp - max_delay),\n            )\n            fold_ar /= count_ar"},
+     "old": "                ii * (gulp - max_delay) - min_delay,\n            )\n        fold_ar /= count_ar", "new": "                ii * (gulp - max_delay) - min_delay,\n            )\n            fold_ar /= count_ar"},
     {"id": "c11-fold-empty", "file": B, "expect": "C11.R4",
      "old": "        fold_ar = np.zeros(nbins * nints * nbands, dtype=\"float32\")", "new": "        fold_ar = np.empty(nbins * nints * nbands, dtype=\"float32\")"},
     {"id": "c11-subint-stride", "file": K, "expect": "C11.R1",
